@@ -40,7 +40,7 @@ def run(R):
     R.rule = ("cases = (tree, store, rendering): all expression trees of depth 1 over every operator (unary + - ~ !, 16 binary, && ||, ?:, "
               "= and the ten compound assignments, prefix/postfix ++ --, non-lvalue assignments) and 12 operands (0 1 2 3 7 -1 017 0x1f "
               "08 MaxInt64 x y), depth-2 trees with 15 effect/fault/overflow subtrees in every position, all 256 pairs of binary "
-              "operators in both shapes x 4 stores x {minimal parentheses, fully parenthesised} x 3 runs; undefined-in-C cases "
+              "operators in both shapes x 4 stores x {minimal parentheses, fully parenthesised (variables and lvalues too), no blanks} x 3 runs; plus seeded random trees of depth 3-4 (ArithSim); undefined-in-C cases "
               "excluded by the spec; distinct_nontrivial = distinct trees with two or more operators or a side effect")
     R.assumptions = ["Int64.tla is trusted after its self-test against Go's int64 on a vector table (run in this check)",
                      "'undefined in C' = a variable modified and otherwise accessed anywhere in the expression, shift count >= 64, "
@@ -55,6 +55,19 @@ def run(R):
         rnd = random.Random(R.seed)
         # the quick tier takes every case with a skipped operand or a fault and a seeded half of the rest
         cases = [c for c in cases if c["exp"] != c["eager"] or c["exp"]["f"] or rnd.random() < 0.5]
+    # random deeper trees (depth 3-4) from the stack machine of ArithSim.tla
+    sim = R.tlc("ArithSim", "INIT SInit\nNEXT SNext\nINVARIANT SEmit\nCONSTANT MaxDepth = 4\n", simulate="num=%d" % (40 if R.tier == "quick" else 600),
+                depth=14, workers=8, name="ArithSim", timeout=3000)
+    seen = set((c["min"], c["store"]) for c in cases)
+    nsim = 0
+    for p in sim.prints:
+        if p and p[0] == "CASE":
+            c = json.loads(p[1])
+            if (c["min"], c["store"]) not in seen:
+                seen.add((c["min"], c["store"]))
+                cases.append(c)
+                nsim += 1
+    R.notes["simulated_deeper_cases"] = nsim
     obs, _ = R.drive("eval", cases, shards=vlib.NCPU, timeout=3000)
     if len(obs) != len(cases):
         raise vlib.MachineryError("driver returned %d of %d" % (len(obs), len(cases)))
@@ -76,7 +89,7 @@ def run(R):
         o = obs[k]
         ex = dict(expr=o["min"], full=o["full"], store=o["store"], expected=o["exp"], observed_min=o["omin"], observed_full=o["ofull"])
         R.violation("Eval differs from Arith.tla: %s" % json.dumps(ex)[:1600],
-                    dict(kind="eval", case={k2: o[k2] for k2 in ("min", "full", "store", "undef", "exp", "eager")}), coords={"class": "value", "expr": o["min"]})
+                    dict(kind="eval", case={k2: o[k2] for k2 in ("min", "full", "tight", "store", "undef", "exp", "eager")}), coords={"class": "value", "expr": o["min"]})
     R.evaluations = len(obs) * 6
     R.traces = len(obs)
     R.nontrivial = set(o["min"] for o in obs if sum(o["min"].count(x) for x in "+-*/%<>=&|^?~!") >= 2)
@@ -87,7 +100,7 @@ def run(R):
 
 def replay(R, doc):
     c = doc["replay"]["case"]
-    c = {k2: c[k2] for k2 in ("min", "full", "store", "undef", "exp", "eager")}
+    c = {k2: c[k2] for k2 in ("min", "full", "tight", "store", "undef", "exp", "eager")}
     obs, _ = R.drive("eval", [c])
     path = R.path("obs", "arith.ndjson")
     vlib.write_ndjson(path, obs)
